@@ -27,6 +27,9 @@ def printText (T : Table) (L : Ladder) (S : List (List Nat)) (uni : Bool) : Skel
   | .ite c a b => kwIf ++ 32 :: (printText T L S uni c ++ 32 :: (kwThen ++ 32 :: (printText T L S uni a ++ 32 :: (kwElse ++ 32 :: printText T L S uni b))))
   | .ann t ty => 40 :: (printText T L S uni t ++ (58 :: 58 :: (printTyText L.ty S uni ty ++ [41])))
   | .binderT b x ty body => binderTxt T L uni b ++ (x ++ (58 :: 58 :: (printTyText L.ty S uni ty ++ 46 :: 32 :: printText T L S uni body)))
+  | .interval a b => 123 :: (printText T L S uni a ++ 46 :: 46 :: (printText T L S uni b ++ [125]))
+  | .collect x body => 123 :: (x ++ 46 :: 32 :: (printText T L S uni body ++ [125]))
+  | .collectT x ty body => 123 :: (x ++ (58 :: 58 :: (printTyText L.ty S uni ty ++ 46 :: 32 :: (printText T L S uni body ++ [125]))))
 
 /-- The printed text with line breaks: `print_ast` with a line width writes, where the unbroken layout has
 a separating blank, that blank followed by more whitespace (newline and indentation) — `sepB path slot`,
@@ -47,6 +50,9 @@ def printTextW (T : Table) (L : Ladder) (S : List (List Nat)) (uni : Bool) (sepB
   | p, .ann t ty => 40 :: (printTextW T L S uni sepB sepF (0 :: p) t ++ (58 :: 58 :: (printTyText L.ty S uni ty ++ [41])))
   | p, .binderT b x ty body => binderTxt T L uni b ++ (x ++ (58 :: 58 :: (printTyText L.ty S uni ty ++
       46 :: 32 :: printTextW T L S uni sepB sepF (0 :: p) body)))
+  | p, .interval a b => 123 :: (printTextW T L S uni sepB sepF (0 :: p) a ++ 46 :: 46 :: (printTextW T L S uni sepB sepF (1 :: p) b ++ [125]))
+  | p, .collect x body => 123 :: (x ++ 46 :: 32 :: (printTextW T L S uni sepB sepF (0 :: p) body ++ [125]))
+  | p, .collectT x ty body => 123 :: (x ++ (58 :: 58 :: (printTyText L.ty S uni ty ++ 46 :: 32 :: (printTextW T L S uni sepB sepF (0 :: p) body ++ [125]))))
 
 /-- the inserted characters are whitespace; the run before `else` is not empty -/
 def SepOK (sepB : List Nat → Nat → List Nat) (sepF : List Nat → List Nat) : Prop :=
@@ -66,6 +72,9 @@ def Skel.NamesOK (S : List (List Nat)) : Skel → Prop
   | .ite c a b => c.NamesOK S ∧ a.NamesOK S ∧ b.NamesOK S
   | .ann t ty => t.NamesOK S ∧ ty.NamesOK S
   | .binderT _ x ty body => (NameOK S x = true ∧ idShaped x = true) ∧ ty.NamesOK S ∧ body.NamesOK S
+  | .interval a b => a.NamesOK S ∧ b.NamesOK S
+  | .collect x body => (NameOK S x = true ∧ idShaped x = true) ∧ body.NamesOK S
+  | .collectT x ty body => (NameOK S x = true ∧ idShaped x = true) ∧ ty.NamesOK S ∧ body.NamesOK S
 
 /-! ### how a term text may begin -/
 
@@ -82,7 +91,7 @@ def startsOK (T : Table) : Nat → List Nat → Bool
   | _, [] => true
   | 0, _ => true
   | f + 1, c :: u =>
-    isIdStart c || isDigitC c || c = 40 ||
+    isIdStart c || isDigitC c || c = 40 || c = 123 ||
     T.binderTxts.any (fun p => p.isPrefixOf (c :: u) || (c :: u).isPrefixOf p) ||
     T.unaryTxts.any (fun p => (c :: u).isPrefixOf p || (p ≠ [] && p.isPrefixOf (c :: u) && startsOK T f ((c :: u).drop p.length)))
 
@@ -108,7 +117,7 @@ abbrev TextOK (T : Table) (L : Ladder) (S : List (List Nat)) : Prop :=
   S.contains [40] = true ∧ S.contains [41] = true ∧ S.contains [46, 32] = true ∧
   S.contains kwIf = true ∧ S.contains kwThen = true ∧ S.contains kwElse = true ∧
   safeBeforeTerm T S [40] = true ∧
-  (∀ t ∈ S, [41].isPrefixOf t = true → t = [41] ∨ isWs ((t.drop 1).headD 0) = false ∧ (t.drop 1).headD 0 ≠ 41 ∧ (t.drop 1).headD 0 ≠ 44 ∧ (t.drop 1).headD 0 ≠ 58 ∧ (t.drop 1).headD 0 ≠ 46) ∧
+  (∀ t ∈ S, [41].isPrefixOf t = true → t = [41] ∨ isWs ((t.drop 1).headD 0) = false ∧ (t.drop 1).headD 0 ≠ 41 ∧ (t.drop 1).headD 0 ≠ 44 ∧ (t.drop 1).headD 0 ≠ 58 ∧ (t.drop 1).headD 0 ≠ 46 ∧ (t.drop 1).headD 0 ≠ 125) ∧
   (∀ t ∈ S, [46, 32].isPrefixOf t = true → t = [46, 32]) ∧
   (∀ t ∈ S, [46].isPrefixOf t = true → t = [46, 32] ∨ (t.drop 1).headD 0 ≠ 32) ∧
   -- operator spellings
@@ -124,6 +133,11 @@ abbrev TextOK (T : Table) (L : Ladder) (S : List (List Nat)) : Prop :=
       spellOK T S (binderRow T L b).unicodeTxt (binderRow T L b).unicode false true = true) ∧
   -- type annotations: the type syntax, and `::` is a terminal read as its own symbol that nothing longer starts with
   TypeTextOK L.ty S ∧
-  (S.contains [58, 58] = true ∧ tokOfTerminal S [58, 58] = .sym L.dcolon ∧ ∀ t ∈ S, [58, 58].isPrefixOf t = true → t = [58, 58])
+  (S.contains [58, 58] = true ∧ tokOfTerminal S [58, 58] = .sym L.dcolon ∧ ∀ t ∈ S, [58, 58].isPrefixOf t = true → t = [58, 58]) ∧
+  -- intervals `{m..n}`: "{" and ".." are terminals read as their own symbols that nothing longer starts with when an
+  -- operand follows; nothing longer starts with "}"
+  ((S.contains [123] = true ∧ tokOfTerminal S [123] = .sym L.lbrace ∧ safeBeforeTerm T S [123] = true) ∧
+   (S.contains [46, 46] = true ∧ tokOfTerminal S [46, 46] = .sym L.dotdot ∧ safeBeforeTerm T S [46, 46] = true) ∧
+   (S.contains [125] = true ∧ tokOfTerminal S [125] = .sym L.rbrace ∧ ∀ t ∈ S, [125].isPrefixOf t = true → t = [125]))
 
 end Holpy.C07
